@@ -951,6 +951,9 @@ def r11_7(prog, rep):
         rep.broken_("rule=R11.7 expected >=3 (method, answered verb) outcomes, found %d" % n)
 
 
+_TIER = "quick"
+
+
 def r11_8(prog, rep, rid="R11.8"):
     """A connection record carries the peer's credentials, its buffer and its parser state: the allocator must hand out a record that
     is free.  make_conn() is walked with the free-mask fixed (all free, the lower half busy, one record free at either end of each half,
@@ -960,6 +963,8 @@ def r11_8(prog, rep, rid="R11.8"):
     cfg = f.cfg
     masks = [(1 << 64) - 1, 0xffffffff00000000, 1 << 63, 1 << 32, 1 << 31, 1, 0, 0x00000000fffffffe, 0x8000000000000001,
              0xfffffffe00000000, 0x0000000100000000 | (1 << 40)]
+    if _TIER == "thorough":
+        masks += [1 << k for k in range(64)] + [((1 << 64) - 1) ^ ((1 << k) - 1) for k in range(1, 64)] + [((1 << 64) - 1) ^ (1 << k) for k in range(64)]
     gl = None
     for b_ in cfg.blocks.values():
         for e_ in b_.elems:
@@ -1099,6 +1104,8 @@ def elem_has_call_(x, name):
 
 
 def run(prog, rep, tier, snap):
+    global _TIER
+    _TIER = tier
     rep.rule("R11.1", "ownership test dominates every effect on a task handle taken from the shared table; uid gate of cmd_http", 15)
     n = rep.call(r11_1, prog, rep)
     rep.call(r11_1_gate, prog, rep)
